@@ -5,6 +5,8 @@ import (
 	"go/ast"
 	"go/token"
 	"go/types"
+	"jsverif/internal/ssaeval"
+	"regexp"
 	"sort"
 	"strings"
 
@@ -285,6 +287,9 @@ func (c *Ctx) ruleC14ValidateFirst() {
 	})
 	if guard != nil && cf.dominatedBy(stat, guard.Init) && cf.dominatedBy(join, guard.Init) {
 		r.Ok("C14-VALIDATE-FIRST", "validated before stat", fmt.Sprintf("%s(p) != nil returns an error and dominates the Join and the Stat of the same p", validator.Name()), c.pos(guard.Pos()))
+	} else if v, und := c.validatedBeforeStatE8(f); und == "" && v != nil {
+		validator = v
+		r.Ok("C14-VALIDATE-FIRST", "validated before stat", fmt.Sprintf("by abstract evaluation of the resolver (its own helpers inlined): on every path that reaches os.Stat the joined name has passed %s(p) == nil", v.Name()), c.pos(stat.Pos()))
 	} else {
 		r.Bad("C14-VALIDATE-FIRST", "validated before stat", "the string joined into the stat'ed path does not pass the name predicate on every path to os.Stat", c.pos(stat.Pos()))
 	}
@@ -795,4 +800,77 @@ func (c *Ctx) ruleC14RecursionOnlyForCycles() {
 	if n == 0 {
 		r.Undecided("C14-RECURSION-ONLY-FOR-CYCLES", "sites", "the recursion message is not used anywhere: the cycle guard is no longer recognised", "")
 	}
+}
+
+var statJoinRe = regexp.MustCompile(`^path/filepath\.Join\(list\[path/filepath\.Dir\((.*)\) (.*)\]\)$`)
+
+// validatedBeforeStatE8: the include resolver evaluated abstractly with the helpers that only it calls inlined: every
+// path that calls os.Stat/Lstat does so on Join(Dir(..), P) and has decided <validator>(P) == nil, for one function
+// <validator> of the module of type func(string) error. Returns the validator.
+func (c *Ctx) validatedBeforeStatE8(f *Fn) (*types.Func, string) {
+	sf := c.P.SSAFunc(f.Obj)
+	if sf == nil {
+		return nil, "no SSA form"
+	}
+	ev := c.ownHelpersEval(f, nil, nil)
+	ev.WantCall = func(fn *ssa.Function) bool {
+		return fn.Pkg != nil && fn.Pkg.Pkg.Path() == "os" && (fn.Name() == "Stat" || fn.Name() == "Lstat")
+	}
+	var args []ssaeval.Value
+	for _, p := range sf.Params {
+		args = append(args, ssaeval.Obj(p.Name()))
+	}
+	var validator *types.Func
+	nStat := 0
+	for _, o := range ev.Run(sf, args) {
+		if o.Incomplete != "" {
+			return nil, "incomplete: " + o.Incomplete
+		}
+		for _, e := range o.Events {
+			if e.Kind != "call" || len(e.Args) != 1 {
+				continue
+			}
+			nStat++
+			m := statJoinRe.FindStringSubmatch(stripEpochs(e.Args[0].Term()))
+			if m == nil {
+				return nil, ""
+			}
+			p := m[2]
+			found := false
+			for _, cd := range o.Conds {
+				t := stripEpochs(cd.Term)
+				var inner string
+				switch {
+				case strings.HasPrefix(t, "!=(") && strings.HasSuffix(t, ",nil)") && !cd.Taken:
+					inner = t[3 : len(t)-5]
+				case strings.HasPrefix(t, "==(") && strings.HasSuffix(t, ",nil)") && cd.Taken:
+					inner = t[3 : len(t)-5]
+				default:
+					continue
+				}
+				if !strings.HasSuffix(inner, "("+p+")") {
+					continue
+				}
+				name := strings.TrimSuffix(inner, "("+p+")")
+				for _, g := range c.libFns() {
+					if sg := c.P.SSAFunc(g.Obj); sg != nil && sg.String() == name {
+						sig := g.Obj.Type().(*types.Signature)
+						if sig.Params().Len() == 1 && sig.Results().Len() == 1 && isErrorLike(sig.Results().At(0).Type()) {
+							if validator == nil || validator == g.Obj {
+								validator = g.Obj
+								found = true
+							}
+						}
+					}
+				}
+			}
+			if !found {
+				return nil, ""
+			}
+		}
+	}
+	if nStat == 0 {
+		return nil, "no path reaches os.Stat"
+	}
+	return validator, ""
 }
